@@ -263,7 +263,8 @@ class Shadow:
     # ---- lookup keys ----
     def key_for(self, k):
         """a string naming ordinal k: by name or by id"""
-        if self.e[k]['K'] == 'X' or self.rnd.random() < 0.5:
+        nm = self.e[k]['name']
+        if self.e[k]['K'] == 'X' or not nm or '/' in nm or self.rnd.random() < 0.5:
             return 'i:%d' % k
         return 'n:%d' % k
 
@@ -272,8 +273,9 @@ class Shadow:
         r = rnd.random()
         if self.e and r < 0.5:
             k = rnd.randrange(len(self.e))
-            # lookup keys are non-empty (features have no name)
-            return '%s:%d' % ('i' if self.e[k]['K'] == 'X' or not self.e[k]['name'] else rnd.choice('ni'), k)
+            # lookup keys are non-empty (features have no name) and contain no slash (that would be an HDF5 path)
+            nm = self.e[k]['name']
+            return '%s:%d' % ('i' if self.e[k]['K'] == 'X' or not nm or '/' in nm else rnd.choice('ni'), k)
         if r < 0.7:
             return hx(rnd.choice(UUIDISH))
         return hx(rnd.choice(PLAIN))
